@@ -172,6 +172,79 @@ theorem C07_sampleDefault_schema (E : Env Float) (F : Forest Float) (convs : Lis
   rw [C07_buildTable_columns E F convs isIntegral _ 0.7 cl' streams s1 s2 t h2 j]
   exact wellFormed_columns _ _ _ hwf' j
 
+/-- `Forest.__init__` keeps the column names -/
+theorem forest_init_names {α : Type} [Add α] [Sub α] [Mul α] [Div α] [LT α] [LE α] [BEq α]
+    [DecidableLT α] [DecidableLE α] [ScalarOps α] [Inhabited α] (E : Env α) (inp : ForestIn α) (F : Forest α)
+    (h : Forest.init E inp = .ok F) : F.names = inp.names := by
+  unfold Forest.init at h
+  simp only [bind, Except.bind] at h
+  split at h
+  · cases h
+  · split at h
+    · cases h
+    · simp only [pure, Except.pure, Except.ok.injEq] at h
+      subst h
+      rfl
+
+/-- C07 (schema, default-strategy synthesis with sub-sampling, `clustering/sampling.py` included): whenever `sampleDefaultSampled`
+finishes — whether or not `should_sample` asks for a row sample, whichever rows are picked, whatever the sample size, the parameters and
+every RNG stream — the plan is well-formed for the table's columns and the assembled table has exactly the input's columns. The plan is
+searched on the *sampled* forest and executed on the full one: both have the input's columns (`forest_init_names`). -/
+theorem C07_sampleDefaultSampled_schema (E : Env Float) (inp : ForestIn Float) (F : Forest Float) (hinit : Forest.init E inp = .ok F)
+    (convs : List (Conv Float)) (isIntegral : List Bool) (main : Option Nat) (sampleSize : Nat) (mw th alpha : Float)
+    (picked : List Nat) (planStream : List (Draw Float)) (streams : List (List Nat × List (Draw Float))) (s s' : List (Draw Float))
+    (cl : Clusters) (res : MTable (Cell Float) Float) (hn : 0 < F.names.length)
+    (hmain : ∀ m, main = some m → m < F.names.length)
+    (h : (sampleDefaultSampled E inp F convs isIntegral main sampleSize mw th alpha picked planStream streams).run s = .ok ((cl, res), s')) :
+    WellFormedPlan F.names.length main cl ∧ ∀ j, j ∈ res.2 ↔ j < F.names.length := by
+  unfold sampleDefaultSampled at h
+  by_cases hs : shouldSample F.names.length inp.raw.size sampleSize = true
+  · rw [if_pos hs] at h
+    obtain ⟨u, s1, _, h⟩ := StateT_bind_ok _ _ _ _ _ h
+    by_cases hv : validPick inp.raw.size sampleSize picked = true
+    · rw [if_pos hv] at h
+      split at h
+      · simp [throw, throwThe, MonadExceptOf.throw, StateT.lift, StateT.run, bind, StateT.bind, Except.bind] at h
+      · rename_i Fs hFs
+        split at h
+        · simp [throw, throwThe, MonadExceptOf.throw, StateT.lift, StateT.run, bind, StateT.bind, Except.bind] at h
+        · rename_i cl' rest hsolve
+          obtain ⟨t, s2, h2, h⟩ := StateT_bind_ok _ _ _ _ _ h
+          obtain ⟨he, _⟩ := StateT_pure_ok _ _ _ _ h
+          simp only [Prod.mk.injEq] at he
+          obtain ⟨rfl, rfl⟩ := he
+          have hnames : Fs.names.length = F.names.length := by
+            rw [forest_init_names E _ Fs hFs, forest_init_names E inp F hinit]
+            rfl
+          have hnum : (clusteringContext E Fs main).numColumns = F.names.length := by
+            simp [clusteringContext, ClusteringContext.numColumns, hnames]
+          have hwf := C13_solve_wellFormed (clusteringContext E Fs main) mw th alpha planStream rest cl' (by rw [hnum]; exact hn)
+            (by intro m hm; rw [hnum]; exact hmain m hm) hsolve
+          rw [hnum] at hwf
+          have hwf' : WellFormedPlan F.names.length main cl' := hwf
+          refine ⟨hwf', fun j => ?_⟩
+          rw [C07_buildTable_columns E F convs isIntegral _ 0.7 cl' streams s1 s2 t h2 j]
+          exact wellFormed_columns _ _ _ hwf' j
+    · rw [if_neg hv] at h
+      simp [throw, throwThe, MonadExceptOf.throw, StateT.lift, StateT.run] at h
+  · rw [if_neg hs] at h
+    exact C07_sampleDefault_schema E F convs isIntegral main mw th alpha streams s s' cl res hn hmain h
+
+/-- `should_sample`: a table is sub-sampled only if it has more rows than the sample size, and never with three columns or fewer -/
+theorem shouldSample_spec (dims numRows sampleSize : Nat) (h : shouldSample dims numRows sampleSize = true) :
+    sampleSize < numRows ∧ (1 ≤ sampleSize → 4 ≤ dims) := by
+  unfold shouldSample at h
+  split_ifs at h with h1
+  simp only [decide_eq_true_eq] at h
+  refine ⟨by omega, fun hs => ?_⟩
+  by_contra hd
+  have hd' : dims ≤ 3 := by omega
+  interval_cases dims <;> omega
+
+/-- Non-vacuity: 100 rows and 5 columns are sub-sampled at sample size 10, not at 20; a valid pick of 3 of 5 rows. -/
+example : shouldSample 5 100 10 = true ∧ shouldSample 5 100 20 = false ∧ validPick 5 3 [4, 0, 2] = true ∧ validPick 5 3 [4, 0, 4] = false := by
+  decide
+
 /-! ## Value domains of the cells (one cluster, from the typed table) -/
 
 section
